@@ -29,6 +29,7 @@ impl Tier {
 
 #[derive(Clone, Debug, Serialize, PartialEq)]
 pub struct Violation {
+    /// `rule` or `rule/class`: shrinking and replay must reproduce it exactly
     pub rule: String,
     pub message: String,
 }
